@@ -1,7 +1,7 @@
 (* C13 -- schema validation accepts valid schemas and rejects each rule
    violation.  Statements only; proofs are in Proofs/SchemaValProofs.v. *)
 From PyGql Require Import Schema.SchemaFull Schema.SchemaValidateModel Spec.SchemaValidSpec
-  Proofs.SchemaValProofs Proofs.SchemaVerdictProofs.
+  Proofs.SchemaValProofs Proofs.SchemaVerdictProofs Spec.SchemaReportSpec Proofs.SchemaReportProofs.
 From Coq Require Import Permutation.
 
 (* The covariance check used for interface implementations decides exactly
@@ -81,6 +81,27 @@ Proof.
 Qed.
 Print Assumptions C13_all_reported_partial.
 
+(* Violations are reported together, label by label.  [validate_all] lists
+   every violated rule instance (the validator's walk with every [continue]
+   removed).  Each of them is in the reported list, unless a reported error of
+   the same member hides it and [masked_by] -- the table read off the code's
+   [continue]s: an invalid type name hides the rest of that type, a duplicate
+   field / argument hides that member's own checks, 'implement once' and
+   'expects type' hide the dependent interface checks, 'expects object types'
+   hides 'only once' -- allows it.  Conversely nothing is reported that is not
+   a violated rule instance. *)
+Theorem C13_all_reported : forall s,
+  (forall e, In e (validate_all s) ->
+     In e (validate_model s)
+     \/ exists m, In m (validate_model s) /\ masked_by (v_label m) (v_label e) /\ same_member m e)
+  /\ (forall e, In e (validate_model s) -> In e (validate_all s)).
+Proof.
+  intros s. split.
+  - intros e He. destruct (all_reported s e He) as [H|(m & Hm & Hk & Hs)]; [left; exact H|right; eauto].
+  - apply reported_are_violations.
+Qed.
+Print Assumptions C13_all_reported.
+
 (* non-vacuity *)
 Local Open Scope string_scope.
 Definition S (x : string) : str := str_of_string x.
@@ -143,3 +164,15 @@ Proof.
     simpl in Ht. destruct Ht as [<-|[<-|[<-|[]]]]; try discriminate Hb.
     injection Hb as _ <- _. destruct Hg as [<-|[]]. simpl. tauto.
 Qed.
+
+(* a duplicate field with an input type in output position: only the duplicate
+   is reported, and it is allowed to hide the position error *)
+Example C13_example_masking :
+  let f t := mkField (S "x") t [] None None in
+  let sch := mkSchema [ mkType (S "Int") false true BScalar;
+                        mkType (S "In") false false (BInput [mkInput (S "a") (TyNamed (S "Int")) None]);
+                        mkType (S "Q") false false (BObject [] [f (TyNamed (S "Int")); f (TyNamed (S "In"))] None) ]
+                      [] (Some (S "Q")) None None None in
+  validate_model sch = [mkErr LDuplicateField [S "Q"; S "x"]]
+  /\ validate_all sch = [mkErr LDuplicateField [S "Q"; S "x"]; mkErr LFieldNotOutput [S "Q"; S "x"]].
+Proof. vm_compute. split; reflexivity. Qed.
